@@ -26,7 +26,7 @@ ASSUMPTIONS = ['pysam BAM writing/reading is the storage; its own refusal of nam
                'expected field values come from the raw reads through the hand-written layout table and the independent 52-letter code']
 MIN_NONTRIVIAL = {'quick': 300, 'thorough': 30000}
 REQUIRED_MONITORS = ['totality:single_chars', 'totality:pairs', 'roundtrip:reads_decoded', 'roundtrip:fields_compared',
-                     'length:refused_loudly', 'length:stored_exactly', 'history:fitting_then_overlong_in_one_library']
+                     'length:refused_loudly', 'length:stored_exactly', 'history:fitting_then_overlong_in_one_library', 'roundtrip:cell_index_zero']
 SHARD_TIMEOUT = {'quick': 600, 'thorough': 3600}
 PHRED_TAGS = {'QX', 'QT', 'RQ', 'BZ', 'QM', 'lq', 'aQ', 'AQ', 'E2', 'EQ', 'eq', 'is', 'H1', 'H3'}
 
@@ -141,7 +141,10 @@ def run_library(acc, d, dmx, strategy, name, wl, iwl, r, lib, n, single, case_id
         if hk == 'illumina_numeric':
             index_seq = str(r.randint(1, 96))
         base_kind = hk if hk in ('scmo', '3dec') else 'illumina'
-        p = fq.make_pair(r, lay, wl.get(lay['alias'], []), 'good', ids[i] if ids else rid0 + i + 1, case_id, hdr_kind=base_kind, index_seq=index_seq,
+        wl_here = wl.get(lay['alias'], [])
+        if i == 0 and any(ix == 0 for _, ix in wl_here):
+            wl_here = [(b, ix) for b, ix in wl_here if ix == 0]      # the cell with index 0 is always part of the library
+        p = fq.make_pair(r, lay, wl_here, 'good', ids[i] if ids else rid0 + i + 1, case_id, hdr_kind=base_kind, index_seq=index_seq,
                          qmax=93, p_n=0.0, single_end=single, needs=lay.get('needs'),
                          insert_len=[r.randint(20, 60), r.randint(20, 60)])
         p['lay'], p['hk'] = lay, hk
@@ -285,6 +288,7 @@ def run_library(acc, d, dmx, strategy, name, wl, iwl, r, lib, n, single, case_id
             exp[tk] = fq.hsq_decode(tv) if tk in PHRED_TAGS else tv
         if 'bi' in exp:
             exp['SM'] = f"{lib}_{exp['bi']}"
+            acc.count('roundtrip:cell_index_zero', 1 if exp['bi'] == '0' else 0)
         if 'aA' in exp and 'BC' in exp:
             exp['MI'] = exp.get('BC', '') + exp.get('RX', '') + exp['aA']
         if 'SM' in exp:
